@@ -333,6 +333,19 @@ def levels(root):
     return best
 
 
+def vtree(n, budget=None):
+    """functional tree with the terminal VALUES attached to the labels"""
+    budget = budget if budget is not None else [BUDGET]
+    if n is None:
+        return None
+    budget[0] -= 1
+    if budget[0] < 0:
+        raise Cyclic()
+    lab = ('T', int(n.name), np.asarray(n.value).tobytes().hex()) if n.type == 'TERMINAL' else ('F', n.name)
+    return (lab, vtree(n.left if isinstance(n.left, Node) else None, budget),
+            vtree(n.right if isinstance(n.right, Node) else None, budget))
+
+
 def ltree(n, budget=None):
     """labels-only functional tree read through the child pointers"""
     budget = budget if budget is not None else [BUDGET]
@@ -616,6 +629,21 @@ def run_cross(c):
                     pf, pm, sf, sm, ltree(fo), ltree(mo), wf_, wm_)
             elif sorted(lt_labels(ltree(fo)) + lt_labels(ltree(mo))) != sorted(lt_labels(lf) + lt_labels(lm)):
                 o = 'the multiset of nodes is not conserved'
+            if not o and not c.get('same') and sf is not None and sm is not None and fixture_ok:
+                # the same crossover on parents whose equally NAMED terminals hold different VALUES (the terminals of a space are
+                # re-sampled by every grow(), so two trees of one population do): the exchanged branches carry their values along
+                f2, m2 = build(c['f'], sp), build(c['m'], sp)
+                for n_ in pre(m2):
+                    if n_.type == 'TERMINAL':
+                        n_.value = np.asarray(n_.value, dtype=float) + 100.0
+                vf, vm = vtree(f2), vtree(m2)
+                with Script(c['ds']):
+                    r2, exc2 = guarded(lambda: gp._cross(f2, m2, c['maxf'], c['maxm']))
+                if exc2 or not (isinstance(r2, tuple) and len(r2) == 2):
+                    o = '_cross on parents with differently valued terminals raised %s' % exc2
+                elif vtree(r2[0]) != lt_put(vf, sf, lt_get(vm, sm)) or vtree(r2[1]) != lt_put(vm, sm, lt_get(vf, sf)):
+                    o = ('points (%d,%d) slots (%s,%s): with terminal values attached (mother\'s terminals hold other values than the '
+                         'father\'s equally named ones) the offspring are not the parents with the two branches exchanged' % (pf, pm, sf, sm))
     c['o9'] = o
 
 
